@@ -1,6 +1,6 @@
 (* C05 — MRS -> EDS conversion is total and dependency-sound on well-formed input. *)
 From Coq Require Import List NArith ZArith Bool.
-From PyD Require Import Base.Str Model.Hier Model.Mrs Model.Convert Proofs.ConvertP.
+From PyD Require Import Base.Str Base.Graph Model.Hier Model.Mrs Model.Convert Proofs.ConvertP Proofs.ConvertP2.
 Import ListNotations.
 
 (* one node per predication, in order, carrying its predicate, constant and the
@@ -25,3 +25,36 @@ Print Assumptions C05_renamed_ids_unique.
 Theorem C05_ids_match_rels : forall rels ids, ep_ids rels = Some ids -> length ids = length rels.
 Proof. exact ep_ids_length. Qed.
 Print Assumptions C05_ids_match_rels.
+
+(* every edge is justified by the source: the basic dependencies *)
+Theorem C05_deps_justified : forall m ids reps deps w,
+  eds_deps m ids reps = (COk deps, w) -> deps_ok m ids reps deps.
+Proof. exact eds_deps_justified. Qed.
+Print Assumptions C05_deps_justified.
+
+(* ... and the edges of the nodes of the result (before the final bijective
+   renaming when unique_ids is set): a basic dependency (an argument of that
+   role whose value selects the target through a handle constraint, a label or
+   an intrinsic variable; or the single BV edge of a quantifier) or an ARG1
+   predicate-modifier edge to the first representative of the node's own scope
+   from which it was not reachable *)
+Theorem C05_edges_justified : forall m pm uniq e, eds_from_mrs m pm uniq = COk e ->
+  exists ids reps deps nodes1,
+    ep_ids (m_rels m) = Some ids /\ representatives m = Some reps /\
+    e_nodes e = (if uniq then rename_nodes (new_ids_of (combine ids (m_rels m))) nodes1 else nodes1) /\
+    map en_id nodes1 = ids /\
+    let nodes0 := map (base_node m deps) (combine ids (m_rels m)) in
+    let gedges := flat_map (fun n => flat_map (fun rt => [(en_id n, snd rt); (snd rt, en_id n)]) (en_edges n)) nodes0 in
+    forall n role tgt, In n nodes1 -> In (role, tgt) (en_edges n) ->
+      (exists d, dep_ok m ids reps (en_id n) d /\ In (role, tgt) d) \/
+      (role = ARG1 /\ pm = true /\ pm_justified reps gedges (en_id n) tgt).
+Proof. exact eds_edges_justified. Qed.
+Print Assumptions C05_edges_justified.
+
+Theorem C05_bv_edge : forall m ids src p q,
+  ivmap m ids src = Some (p, Some q) ->
+  is_quant (snd q) = true /\ e_iv (snd q) = Some src /\
+  is_quant (snd p) = false /\ e_iv (snd p) = Some src /\
+  In p (combine ids (m_rels m)) /\ In q (combine ids (m_rels m)).
+Proof. exact bv_edge_spec. Qed.
+Print Assumptions C05_bv_edge.
